@@ -19,6 +19,14 @@ checks = {
    text="Seeded search over operation histories x sink behaviours (accept-all, short writes, Interrupted, Ok(0), errors at any call) x buffer capacities (0..300 via the verif hook, and the shipped 16 KiB) on the real DeferredWriter, checked step by step against a byte-stream model and the sink's call log; the real format writers are part of the workload. Evidence, not proof.",
    note="Trusted: std::fmt for expected integer text, std::io::Write::write_all, the model. Failing-sink 'selection' clause is a subsequence match over random payload bytes (see evidence assumptions).",
    tech="deterministic simulation: seeded operation histories on the real writer over a simulated Write seam with injected short writes / EINTR / errors, reference byte-stream model"),
+ "C13": dict(cat="exploration", ref="DESIGN.md §4 C13",
+   text="Seeded search over byte strings x all 12 integer types x both scanner families x scan offsets x every amount of already-buffered data (which selects the 8-byte or the byte-wise path) x read plans for the remainder; the *_multi and the simple variant are both run on a real DeferredReader over the simulated source and compared with a decimal-string reference and with each other. The 8-byte kernel is sampled (kernel-sweep mode), the evidence reports how many of the 2305 (digit count, terminator byte) cases were hit.",
+   note="Trusted: the decimal-string reference (~40 lines), std's integer Display. Exhaustive enumeration of the kernel is a different technique and is not claimed.",
+   tech="deterministic simulation: scanners on the real reader with the buffered amount and refill schedule chosen by the simulator; differential fast-vs-simple plus decimal-string reference"),
+ "C16": dict(cat="exploration", ref="DESIGN.md §4 C16",
+   text="Seeded search over short strings on a whitespace/newline alphabet x start offsets x helpers x patterns x pre-buffered amounts x read plans (incl. one byte per read) on a real DeferredReader over the simulated source: returned offset against a reference scanner, nothing consumed, and request-minimality read off the source's call log (no read() issued once the deciding byte was delivered; none at all for the empty pattern).",
+   note="Trusted: reference scanner (~50 lines) and the source log. Small space sampled, not enumerated.",
+   tech="deterministic simulation: text helpers on the real reader over a simulated Read seam; delivered-byte accounting from the source log"),
 }
 na = {
  "C03": "pure function of a value/text (write then parse): no schedule, fault, crash point or history occurs in the statement; simulation would only be input generation under another name",
